@@ -53,6 +53,9 @@ Record cluster := Cluster {
 Inductive dop :=
 | OpenW (id gw : N) (keys : list N) (auto : bool)
 | WriteW (id : N) (f : frame)
+(* a frame that carries a key mask (Frame.KeepKeys / ExcludeKeys): the masked entries are still in the
+   backing slices but every reader — Entries(), the validator, the storage writer — skips them *)
+| WriteMasked (id : N) (f : frame) (keep : bool) (ks : list N)
 | CommitW (id : N)
 | CloseW (id : N).
 Inductive dres := DOk | DEmptyKeys | DMissing | DInvalidKey | DNoWriter | DAck.
@@ -86,7 +89,15 @@ Definition commit_all (store : gmap N (gmap N series)) (buf : gmap N frame) : gm
                      | None => st
                      end) store buf.
 
-Definition dstep (c : cluster) (o : dop) : cluster * dres :=
+(* Frame.Entries() of a masked frame *)
+Definition mask_frame (keep : bool) (ks : list N) (f : frame) : frame :=
+  filter (fun e => Bool.eqb keep (memb e.1 ks) = true) f.
+(* a masked write is the write of its visible entries: SplitByHost / SplitByLeaseholder iterate
+   Entries(), the validator skips masked positions *)
+Definition eff_op (o : dop) : dop :=
+  match o with WriteMasked id f keep ks => WriteW id (mask_frame keep ks f) | _ => o end.
+
+Definition dstep0 (c : cluster) (o : dop) : cluster * dres :=
   match o with
   | OpenW id gw keys auto =>
       match keys with
@@ -121,7 +132,9 @@ Definition dstep (c : cluster) (o : dop) : cluster * dres :=
       | None => (c, DNoWriter)
       | Some _ => (Cluster (cl_chans c) (cl_store c) (delete id (cl_writers c)), DOk)
       end
+  | WriteMasked _ _ _ _ => (c, DNoWriter)    (* not reached: see eff_op *)
   end.
+Definition dstep (c : cluster) (o : dop) : cluster * dres := dstep0 c (eff_op o).
 
 Fixpoint drun (c : cluster) (ops : list dop) : cluster :=
   match ops with [] => c | o :: r => drun (dstep c o).1 r end.
@@ -132,7 +145,7 @@ Record single := Single { sg_chans : list N; sg_store : gmap N series; sg_writer
 
 Definition keep_leased (f : frame) : frame := filter (fun e => negb (is_free_key e.1)) f.
 
-Definition sstep (s : single) (o : dop) : single * dres :=
+Definition sstep0 (s : single) (o : dop) : single * dres :=
   match o with
   | OpenW id _ keys auto =>
       match keys with
@@ -165,7 +178,10 @@ Definition sstep (s : single) (o : dop) : single * dres :=
       | None => (s, DNoWriter)
       | Some _ => (Single (sg_chans s) (sg_store s) (delete id (sg_writers s)), DOk)
       end
+  | WriteMasked _ _ _ _ => (s, DNoWriter)
   end.
+(* the single store sees the same masked frame: cesium's writer skips the masked entries *)
+Definition sstep (s : single) (o : dop) : single * dres := sstep0 s (eff_op o).
 Fixpoint srun (s : single) (ops : list dop) : single :=
   match ops with [] => s | o :: r => srun (sstep s o).1 r end.
 
